@@ -119,7 +119,7 @@ def run(ck, facts, tier):
                 else:
                     ck.violation(R, "%s:result-%s" % (name, m.group(1)), b.where(), "the id returned in `Some` is not recorded")
     ck.floor(R, "methods", n_methods, 35)
-    ck.floor(R, "id-serving-instances", n_checked, 22)
+    ck.floor(R, "id-serving-instances", n_checked, 18)
 
     # ------------------------------------------------------------------ COLLECT-COVERS
     R = "C23.COLLECT-COVERS"
